@@ -17,3 +17,75 @@ claim('C16',
       'Bounds in evidence.bounds (elements, keys per element, name/value lengths, alphabets); runes decoded as bytes (<0x80); '
       'sort.Strings modelled for the bounded key count; trusted: go/ssa, executor, z3.',
       'SSA symbolic execution + SMT (z3), case-split shapes, symbolic bytes', 'DESIGN.md 6/C16')
+
+PROTO_NOTE = ('Harness: flat stores implementing the pkg/store/v2 contracts, each scheduler step = one real Reconcile(id) run to completion '
+              '(interleaving at Reconcile granularity; version conflicts cannot occur), device/plugin/topo models of /verif/harness/v2; '
+              'bounds: targets x transactions and BMC depth in evidence.bounds; a contract that fails only from unreachable states (no '
+              'schedule within the bound reaches the failing step) is reported as inconclusive, never as a violation; every SAT model is '
+              'replayed natively (same Step function compiled by go) before a VIOLATION line is printed. Trusted: go/ssa, executor, z3.')
+claim('C01',
+      'The transition relation T of the real v2 transaction+proposal reconcilers is extracted by symbolic execution (two targets); z3 decides '
+      '(a) step contracts from ANY state: a transaction becomes VALIDATED only if every proposal is VALIDATED, Commit opens only after that, '
+      'values change only in a proposal\'s commit phase, abort never touches values; (b) BMC from the initial state over all schedules, '
+      'target subsets and plugin verdicts: no reachable state has a committed transaction with an unaltered named target, nor a rejected / '
+      'failed-before-commit transaction with an altered target.',
+      PROTO_NOTE, 'SSA symbolic execution -> transition relation; SMT step contracts + bounded model checking (z3)', 'DESIGN.md 4, 6/C01')
+claim('C02',
+      'Same extracted transition relation (1 target x 2 transactions; thorough deeper): contracts "a merge needs Committed.Index == PrevIndex, '
+      'stamps its own index, happens only in a proposal step", index fields never decrease in a step; BMC of ghost order monitors updated by '
+      'the harness stores/device: merges in increasing index, no Set sent before its merge or before every earlier proposal finished applying, '
+      'Committed.Index never decreases, Applied <= Committed.',
+      PROTO_NOTE, 'SSA symbolic execution -> transition relation; SMT step contracts + bounded model checking (z3)', 'DESIGN.md 4, 6/C02')
+claim('C05',
+      '(a) ModelPluginInfo.Validate chunking decided for EVERY document length 0..3*chunkSize+2 (contents unmaterialised, pure 64-bit offset '
+      'arithmetic): chunks contiguous from 0, non-empty, <= chunkSize, cover the document, stream closed once, verdict propagated. '
+      '(c) on the extracted v2 transition relation: a proposal becomes VALIDATED only with the plugin\'s acceptance in that step on top of the '
+      'predecessor\'s commit and leaves the configuration untouched; a proposal\'s commit opens only in its transaction\'s commit phase; BMC: '
+      'a rejected change never becomes readable. (b) document = readable leaves is covered by the C18 tree checks.',
+      PROTO_NOTE, 'SSA symbolic execution + SMT (z3): arithmetic harness, step contracts, BMC', 'DESIGN.md 6/C05')
+claim('C06',
+      'Rollback requests for any index (missing, naming a rollback, an older change, the latest change) appended anywhere: BMC on the extracted '
+      'relation with the real tree/southbound conversion code (no content cuts): a committed rollback always names the most recent committed '
+      'change of its targets; after it the rolled-back leaf is neither readable nor on the connected device; waypoint-seeded queries extend '
+      'the depth past the first applied change.',
+      PROTO_NOTE + ' Universe: every transaction writes its own leaf, so "previous state" is "leaf absent"; subtree restores are outside this check.',
+      'SSA symbolic execution -> transition relation; bounded model checking with waypoints (z3)', 'DESIGN.md 6/C06')
+claim('C07',
+      'Process stops are a symbolic per-step parameter (after the j-th store/device call of the step every further call fails), budget 1 (quick) / '
+      '2 (thorough) per history: BMC with a fixed-point probe decides that at quiescence every change transaction has its crash-free outcome '
+      '(APPLIED iff accepted by every target\'s model, else FAILED+ABORTED), nothing is merged twice/out of order, nothing sent before merge.',
+      PROTO_NOTE, 'SSA symbolic execution -> transition relation; bounded model checking with crash parameter (z3)', 'DESIGN.md 6/C07')
+claim('C08',
+      'The real Server.Set handler is executed symbolically against a stub store whose Watch delivers a symbolic suffix of the transaction\'s '
+      'life (first event = any lifecycle point, later events monotone with stuttering/skips, last = finished), sync/async from the real '
+      'extension parsing, any failure class: z3 proves success => awaited stage or later, error => FAILED with the mapped gRPC code, response '
+      'lists exactly the changed (target, path, op) pairs and the stored id/index, and that no event sequence leaves the handler waiting '
+      '(sequential channel model: a receive that can never be satisfied is an obligation).',
+      'Store Watch contract (current state replayed, later updates in order) assumed: the goroutine implementation of Watch is outside; '
+      'bounds: 1..3 (thorough 4) delivered events; fixed well-formed request. Trusted: go/ssa, executor (sequential goroutine model), z3.',
+      'SSA symbolic execution with sequential channel model + SMT (z3)', 'DESIGN.md 6/C08')
+claim('C09',
+      'BMC deadlock-freedom on the extracted relation: for every schedule of <= depth steps, the reached state is not a fixed point of every '
+      'Reconcile(id) (one probe copy of T per id, fault-free) while some accepted transaction with all targets connected is not final; contract: an '
+      'aborted proposal leaves both target indexes past itself. Watcher event->id maps and timers are assumed per the controller library contract.',
+      PROTO_NOTE, 'SSA symbolic execution -> transition relation; bounded model checking with fixed-point probes (z3)', 'DESIGN.md 6/C09')
+claim('C10',
+      'Real mastership + configuration + proposal reconcilers with connection loss, device restart and re-connection under a new connection id '
+      'anywhere in the history: contracts (term never decreases, new master => term+1 and master is the live connection, term changes only with the '
+      'master, applied term advances only by the re-push in SYNCHRONIZING) + BMC of ghost monitors evaluated at the device: every accepted Set carries '
+      'the stored term as election id, no change is sent in a term before its re-push completed.',
+      PROTO_NOTE + ' One connection per target at a time (competing simultaneous connections outside).', 'SSA symbolic execution -> transition relation; SMT step contracts + BMC (z3)', 'DESIGN.md 6/C10')
+claim('C11',
+      'The device answers any of the 17 gRPC codes (symbolic per step) through the typed-error conversion of the southbound client: contracts decide '
+      'Unavailable/Canceled/DeadlineExceeded/PermissionDenied leave the whole state unchanged (change stays pending) and every other code fails the '
+      'proposal with the Failure type of that code, advances Applied.Index, leaves applied values and device untouched; BMC: after refusals no '
+      'transaction is stranded and sends stay in order.',
+      PROTO_NOTE, 'SSA symbolic execution -> transition relation; SMT step contracts + BMC (z3)', 'DESIGN.md 6/C11')
+claim('C12',
+      'Panic-site obligations of the real handlers: every nil dereference, index/slice bound, type assertion, nil-map write, regexp.MustCompile '
+      'reached by symbolic execution of Server.Set over shape-generic requests (optional/nil fields, 0..n elements, symbolic short names over an '
+      'alphabet with every byte the handlers treat specially, keys, extensions) is an obligation decided by z3; SAT = concrete request, replayed '
+      'natively under recover().',
+      'Bounds: name/value lengths and element counts in evidence.bounds; currently the Set handler; Get/Subscribe/admin handlers are covered by '
+      'C03/C19 harnesses where registered. std-lib / protobuf / regexp-matching internals outside. Trusted: go/ssa, executor, z3.',
+      'SSA symbolic execution, panic-site obligations + SMT (z3)', 'DESIGN.md 6/C12')
